@@ -27,7 +27,12 @@ def check(run):
           and any(o["op"] == "toggle" for o in h) and any(o["op"] == "pub" for o in h)]
     run.log("%d QoS 2 handshake scripts with a repeated PUBREL and an injected failure" % len(h2))
     hs += h2
-    scns = [inboundlib.scenario(h, [1, 2]) for h in hs]
+    # QoS 1 in depth: one identifier re-used for up to three messages (DUP set on the re-uses), failures toggled in between
+    h1 = inboundlib.gen(run, "q1", [1, 2], ["c1"], ["m1", "m2", "m3"], [1], 5 if thorough else 4, qos=(1,))
+    h1 = [h for h in h1 if sum(1 for o in h if o["op"] == "pub") >= 2 and any(o["op"] == "toggle" for o in h) and not any(o["op"] in ("pubrel", "sweep") for o in h)]
+    run.log("%d QoS 1 scripts re-using one identifier with an injected failure" % len(h1))
+    scns = [inboundlib.scenario(h, [1, 2]) for h in hs] + [inboundlib.scenario(h, [1, 2], dupall=True) for h in h1]
+    hs = hs + h1
     run.log("%d publisher scripts from TLC" % len(scns))
     tpath, crashes = brokerlib.execute(run, scns, "c05", shards=12)
     if crashes:
